@@ -3,7 +3,7 @@ from tools.vlib import *
 from tools.vlib import _strip_comments
 
 PID = "C34"
-READY = False
+READY = True
 MANIFEST = {
     "level_text": "Lean 4 theorems. (classify4/classify6) For every numeric IPv4 address and every numeric IPv6 address (8 groups) lying in "
                   "one of the blocks the property names (0/8, 10/8, 100.64/10, 127/8, 169.254/16, 172.16/12, 192.0.2/24, 192.168/16, "
